@@ -13,8 +13,10 @@ EVIDENCE = os.environ.get("VERIF_EVIDENCE_DIR") or os.path.join(VERIF, "evidence
 REPORTS = os.environ.get("VERIF_REPORTS_DIR") or os.path.join(VERIF, "reports")
 KNOWN = os.path.join(VERIF, "known_findings.json")
 
-QUICK = [("default", False), ("all", False), ("nodefault", False)]
-THOROUGH = QUICK + [("minext", False), ("default", True), ("all", True), ("nodefault", True), ("minext", True)]
+# ("default", True) = the default features with debug assertions on: what `cargo test` runs, and the build in which a
+# `debug_assert!` is code with exits of its own
+QUICK = [("default", False), ("all", False), ("nodefault", False), ("default", True)]
+THOROUGH = QUICK + [("minext", False), ("all", True), ("nodefault", True), ("minext", True)]
 # properties about optional integrations are also decided with those features on and `std` off (a cfg predicate that ties an
 # integration to `std` changes nothing in the other configurations)
 # ... and properties whose code may differ by pointer width or architecture (orderings, layout arithmetic, the overflow limit) are
